@@ -1,7 +1,7 @@
 (* C09 - in-block code changes (CREATE, EIP-7702 set / re-point / clear) reach later txs.
    This file contains only property theorems (closed by [exact]) and their assumption audit.
    Model: Flat/Model.v (src/incarnation_db.rs publish_writes / basic / code_by_address). *)
-From Grevm Require Import Base.Util Flat.Model Flat.ProofsBase Flat.ProofsStorage Flat.ProofsBasic Flat.ProofsRead.
+From Grevm Require Import Base.Util Flat.Model Flat.ProofsBase Flat.ProofsStorage Flat.ProofsBasic Flat.ProofsRead Flat.ProofsCommit.
 
 (* For every block of finalised per-transaction states that is in-order consistent (the snapshot each
    writer took is the in-order pre-state; revm attaches the code of a non-empty hash and a delegation
@@ -63,7 +63,18 @@ Theorem C09_publish_minimal_needs_nonce_bump :
   strip pm_pre <> strip pm_post.
 Proof. exact publish_minimal_needs_nonce_bump. Qed.
 
+(* ... and the same through a backing store into which ordered commit has already moved the first
+   c <= t transactions (accounts written / deleted, code attached). *)
+Theorem C09_basic_through_committed_prefix :
+  forall (cf : N -> N) (bm : N -> bool) (b : base) (effs : list txeff),
+  base_ok cf b -> consistent_from cf bm (sstate_of b) effs ->
+  forall (br : nat -> benres) c t a, c <= t -> bm a = false ->
+  exists r, ac_val (rd_basic (publish_all bm effs) (backing_of (committed_base b effs c)) bm br t a) = Ok r /\
+            option_map norm r = option_map norm (struct_basic b (apply_all (sstate_of b) (firstn t effs)) a).
+Proof. exact basic_committed_prefix. Qed.
+
 Print Assumptions C09_basic_code_refines_struct.
+Print Assumptions C09_basic_through_committed_prefix.
 Print Assumptions C09_storage_unaffected_by_code_changes.
 Print Assumptions C09_readset_determines_basic.
 Print Assumptions C09_publish_minimal_sound.
